@@ -39,6 +39,9 @@ def jobs(tier):
             add('index_args_job', 'ndarray-index-arguments[%s]' % list(lv), lengths=lv)
         if sum(lv) <= (5 if q else 7):
             add('mask_job', 'mask[%s]' % list(lv), lengths=lv, form='nested')
+    # lengths handed over as a NumPy array of a narrow integer type that cannot hold the total number of elements
+    for lv, dt_ in (((60, 50, 40), 'int8'), ((50, 50, 50), 'int8'), ((100, 100, 90), 'uint8'), ((60, 50, 40), 'int16')):
+        add('narrow_lengths_job', 'lengths as %s array %s' % (dt_, list(lv)), lengths=lv, dtype=dt_)
     # arrays WITH EMPTY ROWS (first, interior, several in a row): masks and ra.where must still address the later rows
     for lv in ((2, 0, 1), (0, 2, 1), (1, 0, 0, 2)) + (() if q else ((2, 0, 0), (0, 0, 3), (1, 0, 2, 0, 1))):
         add('mask_job', 'mask[%s,flat]' % list(lv), lengths=lv, form='flat')
